@@ -38,7 +38,7 @@ def run(tier, seed):
     try:
         core.repo_is_importable()
         # (M) all call orders over the whole universe (no emission), and the impure witness
-        r_mc = core.run_tlc("Purity", MC % (q(LOSSES[:4]), q(GENS[:2]), 3, "FALSE", "FALSE"), sc, workers=core.NCPU, tag="MC_Purity", timeout=1800)
+        r_mc = core.run_tlc("Purity", MC % (q(LOSSES[:4]), q(GENS[:2]), 3, "FALSE", "FALSE"), sc, workers=core.NCPU, tag="MC_Purity", timeout=1800, coverage=True)
         core.tlc_must_pass(r_mc, "MC_Purity")
         r_w = core.run_tlc("Purity", MC % (q(["syspde"]), q(["odegen"]), 2, "TRUE", "FALSE"), sc, workers=2, tag="MC_Purity_witness")
         core.tlc_must_fail(r_w, "MC_Purity_witness", "ArgsUnchanged")
